@@ -33,6 +33,7 @@ type Solver struct {
 	Stats     *Stats
 	Log       io.Writer
 	TimeoutMs int
+	killed    bool
 	dead      bool
 }
 
@@ -331,10 +332,47 @@ func (s *Solver) SetTimeout(ms int) {
 }
 
 // Check asks whether the conjunction of assertions is satisfiable. If sat and vars is non-empty, the values of vars are returned.
+// restart replaces a dead solver process by a fresh one (all definitions are re-sent on demand).
+func (s *Solver) restart() error {
+	bin, args := solverArgs(s.Kind, s.TimeoutMs)
+	cmd := exec.Command(bin, args...)
+	in, err := cmd.StdinPipe()
+	if err != nil {
+		return err
+	}
+	outp, err := cmd.StdoutPipe()
+	if err != nil {
+		return err
+	}
+	cmd.Stderr = cmd.Stdout
+	if err := cmd.Start(); err != nil {
+		return err
+	}
+	s.cmd, s.in, s.out, s.dead = cmd, in, bufio.NewReaderSize(outp, 1<<20), false
+	s.Reset()
+	return nil
+}
+
 func (s *Solver) Check(c *Ctx, assertions []*Term, vars []*Term) (Result, Model, error) {
 	if s.dead {
-		return Unknown, nil, fmt.Errorf("solver dead")
+		if s.killed {
+			s.killed = false
+			if err := s.restart(); err != nil {
+				return Unknown, nil, fmt.Errorf("solver dead: %v", err)
+			}
+		} else {
+			return Unknown, nil, fmt.Errorf("solver dead")
+		}
 	}
+	// watchdog: a solver that ignores its own time limit is killed (the query counts as undecided)
+	// and restarted for the next query
+	proc := s.cmd.Process
+	budget := time.Duration(s.TimeoutMs)*time.Millisecond*3/2 + 15*time.Second
+	wd := time.AfterFunc(budget, func() {
+		s.killed = true
+		proc.Kill()
+	})
+	defer wd.Stop()
 	start := time.Now()
 	s.buf.Reset()
 	all := append([]*Term(nil), assertions...)
